@@ -124,13 +124,15 @@ def parse(s: str):
 def extract_printed(out: str, tag: str) -> list:
     """All values printed as <<"tag", ...>> (possibly spanning lines) -> parsed lists (without the tag)."""
     res = []
-    marker = f'<<"{tag}"'
+    import re
+
+    marker = re.compile(r'^<<\s*"' + re.escape(tag) + '"')
     lines = out.split("\n")
     i = 0
     n = len(lines)
     while i < n:
         ln = lines[i]
-        if ln.startswith(marker):
+        if marker.match(ln):
             buf = ln
             depth = _depth(buf)
             while depth > 0 and i + 1 < n:
